@@ -286,3 +286,45 @@ V("c20-zero-based", ["C20"], "break", "tree_generator.py", "_make_tree", "      
 V("c20-pop-while-iterating", ["C20"], "break", "tree_generator.py", "_resolve_random_dict", "                remove.append(key)\n", "                d.pop(key)\n", ["ITER-INV", "GEN"])
 V("c20-hardcoded-class", ["C20"], "break", "tree_generator.py", "build_random_tree", "tree: TTree = tree_class(", "tree: TTree = TypedTree(", ["GEN"])
 V("c20-keep-rename-p", ["C20"], "keep", "tree_generator.py", "_make_tree", "node_data", "obj", all=True)
+
+# ------------------------------------------------------------------ structural keep-variants (refactorings)
+V("k-init-inverted-if", ["C02", "C01", "C07"], "keep", N, "Node.__init__",
+  "        if data_id is None:\n            self._data_id: DataIdType = tree.calc_data_id(data)\n        else:\n            self._data_id: DataIdType = data_id\n",
+  "        if data_id is not None:\n            self._data_id: DataIdType = data_id\n        else:\n            self._data_id: DataIdType = tree.calc_data_id(data)\n")
+V("k-remove-extract-unlink", ["C01", "C04", "C13", "C08"], "keep", N, "Node",
+  "    def remove_children(self) -> None:\n",
+  "    def _unlink(self) -> None:\n        siblings = self._parent._children\n        siblings.pop(_index_of(siblings, self))  # type: ignore\n        if not siblings:  # store None instead of `[]`\n            self._parent._children = None\n\n    def remove_children(self) -> None:\n",
+  more=[(N, "Node.remove", "        pc = self._parent._children\n        pc.pop(_index_of(pc, self))  # type: ignore\n        if not pc:  # store None instead of `[]`\n            pc = self._parent._children = None\n", "        self._unlink()\n")])
+V("k-register-get-form", ["C01", "C02", "C03"], "keep", T, "Tree._register",
+  "        try:\n            clone_list = self._nodes_by_data_id[node._data_id]  # may raise KeyError\n            for clone in clone_list:\n                if clone.parent is node.parent:\n                    del self._node_by_id[node._node_id]\n                    raise UniqueConstraintError(\"Node.data already exists in parent\")\n            clone_list.append(node)\n        except KeyError:\n            self._nodes_by_data_id[node._data_id] = [node]\n",
+  "        clone_list = self._nodes_by_data_id.get(node._data_id)\n        if clone_list is None:\n            self._nodes_by_data_id[node._data_id] = [node]\n            return\n        for clone in clone_list:\n            if clone.parent is node.parent:\n                del self._node_by_id[node._node_id]\n                raise UniqueConstraintError(\"Node.data already exists in parent\")\n        clone_list.append(node)\n")
+V("k-setmeta-early-return", ["C04"], "keep", N, "Node.set_meta",
+  "        if value is None:\n            self.clear_meta(key)\n        elif self._meta is None:\n            self._meta = {key: value}\n        else:\n            self._meta[key] = value\n",
+  "        if value is None:\n            self.clear_meta(key)\n            return\n        if self._meta is None:\n            self._meta = {key: value}\n            return\n        self._meta[key] = value\n")
+V("k-findall-one-expression", ["C02", "C09"], "keep", T, "Tree.find_all",
+  "            if res:\n                # Return a copy: the caller must not modify the internal clone list\n                return res[:max_results] if max_results else res.copy()\n            return []\n",
+  "            if not res:\n                return []\n            return res[:max_results] if max_results else list(res)\n")
+V("k-iterpre-property", ["C06", "C01"], "keep", N, "Node._iter_pre",
+  "        children = self._children\n        if children:\n            for c in children:\n                yield c\n                yield from c._iter_pre()\n",
+  "        for c in self.children:\n            yield c\n            yield from c._iter_pre()\n")
+V("k-filter-explicit-none-false", ["C08", "C01"], "keep", N, "Node.filter", "if res in (None, False):  # Keep only", "if res is None or res is False:  # Keep only")
+V("k-save-doc-two-steps", ["C05", "C12", "C18"], "keep", T, "Tree.save",
+  "            res = {\n                \"meta\": header,\n                \"nodes\": list(\n                    self.to_list_iter(\n                        mapper=mapper, key_map=key_map, value_map=value_map\n                    )\n                ),\n            }\n",
+  "            node_list = list(\n                self.to_list_iter(mapper=mapper, key_map=key_map, value_map=value_map)\n            )\n            res = {\"meta\": header, \"nodes\": node_list}\n")
+V("k-descendant-for-loop", ["C10"], "keep", N, "Node.is_descendant_of",
+  "        parent = self._parent\n        while parent is not None and parent._parent is not None:\n            if parent is other:\n                return True\n            parent = parent._parent\n        return False\n",
+  "        for parent in self.get_parent_list():\n            if parent is other:\n                return True\n        return False\n")
+V("k-moveto-local-parent", ["C01", "C03", "C04", "C13"], "keep", N, "Node.move_to",
+  "        pc = self._parent._children\n        pc.pop(_index_of(pc, self))  # type: ignore\n        if not self._parent._children:  # store None instead of `[]`\n            self._parent._children = None\n        self._parent = new_parent\n",
+  "        old_parent = self._parent\n        pc = old_parent._children\n        pc.pop(_index_of(pc, self))  # type: ignore\n        if not pc:  # store None instead of `[]`\n            old_parent._children = None\n        self._parent = new_parent\n")
+V("k-tolistiter-inline-parent", ["C05", "C12"], "keep", N, "Node.to_list_iter",
+  "            parent_id = node._parent._node_id\n            parent_idx = parent_id_map[parent_id]\n", "            parent_idx = parent_id_map[node._parent._node_id]\n")
+V("k-typed-getchildren-comprehension", ["C15"], "keep", TT, "TypedNode.get_children",
+  "        return list(filter(lambda n: n._kind == kind, all_children))\n", "        return [n for n in all_children if n._kind == kind]\n")
+V("k-dot-key-inline", ["C17"], "keep", "dot.py", "node_to_dot",
+  "        if unique_nodes:\n            key = n._data_id\n            if key in used_keys:\n                continue\n            used_keys.add(key)\n        else:\n            key = n._node_id\n",
+  "        key = _key(n)\n        if unique_nodes:\n            if key in used_keys:\n                continue\n            used_keys.add(key)\n")
+V("k-format-iter-local", ["C16"], "keep", N, "Node._render_lines", "            prefix = n._get_prefix(style, lstrip)\n", "            pre = n._get_prefix(style, lstrip)\n",
+  more=[(N, "Node._render_lines", "            yield prefix + s\n", "            yield pre + s\n")])
+V("k-copy-lock-early", ["C18", "C07"], "keep", T, "Tree.copy_to", "        with self:\n            self._root.copy_to(target, add_self=False, before=None, deep=deep)\n",
+  "        root = self._root\n        with self:\n            root.copy_to(target, add_self=False, before=None, deep=deep)\n")
